@@ -1,1 +1,2 @@
 import SelenModel.Model.SparseSet
+import SelenModel.Model.IntCore
